@@ -13,6 +13,7 @@ package main
 
 import (
 	"bytes"
+	"crypto/sha256"
 	"encoding/json"
 	"fmt"
 	"io/ioutil"
@@ -68,7 +69,24 @@ const (
 	opBReset                 // batch.Reset (open batch: ops dropped; written batch: re-armed for reuse)
 	opBAbandon               // drop the reference to an open, non-empty batch without writing it
 	opReopen                 // Close + open again (an open batch is abandoned)
+	// macro letters (one step = many operations): reach big batches / big stores within the depth bound
+	opBFill  // batch.Set of k distinct filler keys (sorting before, between and after the keys of Σ)
+	opDBFill // Set / SetSync / Put (by turns) of k distinct filler keys directly on the store
 )
+
+// filler keys: spread over the six gaps of Σ = "" < A.. < a < a\x00 < a5.. < a\xff < a\xff\x01.. < b < m.. <
+// \xff < \xff\x7f.. < \xff\xff < \xff\xff\x01.. ; filler i goes to gap i mod 6, so insertion order is not key order.
+var fillGaps = []string{"A", "a5", "a\xff\x01", "m", "\xff\x7f", "\xff\xff\x01"}
+
+func fillKey(i int) []byte { return []byte(fmt.Sprintf("%s%03d", fillGaps[i%len(fillGaps)], i)) }
+
+// the filler value names the letter that wrote it, so that the order of two fills over the same keys matters
+func fillVal(batch bool, n int) []byte {
+	if batch {
+		return []byte(fmt.Sprintf("f%d", n))
+	}
+	return []byte(fmt.Sprintf("d%d", n))
+}
 
 type op struct {
 	kind    opKind
@@ -90,8 +108,13 @@ type cfg struct {
 	maxBatch   int
 	mergeEvery int
 	workers    int
+	fills      []int // macro search: sizes of the batch-fill letters
+	dbFills    []int // macro search: sizes of the store-fill letters
+	maxFills   int   // macro search: at most this many fill letters per history
 	ops        []op
 }
+
+func (c *cfg) macro() bool { return len(c.fills)+len(c.dbFills) > 0 }
 
 func (c *cfg) build() {
 	c.ops = nil
@@ -122,6 +145,14 @@ func (c *cfg) build() {
 		c.ops = append(c.ops, op{kind: opBReset}, op{kind: opBAbandon})
 	}
 	c.ops = append(c.ops, op{kind: opReopen})
+	if c.be.batch {
+		for _, n := range c.fills {
+			c.ops = append(c.ops, op{kind: opBFill, k: n})
+		}
+	}
+	for _, n := range c.dbFills {
+		c.ops = append(c.ops, op{kind: opDBFill, k: n})
+	}
 }
 
 func (c *cfg) opName(o op) string {
@@ -149,6 +180,10 @@ func (c *cfg) opName(o op) string {
 		return "batch abandoned"
 	case opReopen:
 		return "Close+reopen"
+	case opBFill:
+		return fmt.Sprintf("batch.Set x%d fillers", o.k)
+	case opDBFill:
+		return fmt.Sprintf("Set/SetSync/Put x%d fillers", o.k)
 	}
 	return "?"
 }
@@ -162,7 +197,7 @@ type life struct {
 
 func (l life) next(k opKind) life {
 	switch k {
-	case opBSet, opBDel:
+	case opBSet, opBDel, opBFill:
 		if l.bstate != 1 {
 			return life{1, 1, false}
 		}
@@ -179,10 +214,27 @@ func (l life) next(k opKind) life {
 
 func (c *cfg) enabled(hist []int, oi int) bool {
 	var l life
+	nfill := 0
 	for _, h := range hist {
 		l = l.next(c.ops[h].kind)
+		if k := c.ops[h].kind; k == opBFill || k == opDBFill {
+			nfill++
+		}
 	}
-	switch c.ops[oi].kind {
+	kind := c.ops[oi].kind
+	isFill := kind == opBFill || kind == opDBFill
+	if c.macro() {
+		// histories without any fill letter belong to the plain searches: do not complete them here
+		if isFill && nfill >= c.maxFills {
+			return false
+		}
+		if !isFill && nfill == 0 && len(hist)+1 >= c.depth {
+			return false
+		}
+	}
+	switch kind {
+	case opBFill:
+		return l.bstate != 1 || l.n < c.maxBatch
 	case opBSet, opBDel:
 		return l.bstate != 1 || l.n < c.maxBatch
 	case opBWrite:
@@ -272,6 +324,7 @@ func (m content) withPrefix(sorted []string, p []byte) []kv {
 type bop struct {
 	del  bool
 	k, v string
+	fill int // > 0: the macro letter "Set of fill filler keys" (k, v unused)
 }
 
 type model struct {
@@ -316,7 +369,9 @@ func (mo *model) key() string {
 			b.WriteString("open:")
 		}
 		for _, o := range mo.bops {
-			if o.del {
+			if o.fill > 0 {
+				fmt.Fprintf(&b, "F%d,", o.fill)
+			} else if o.del {
 				fmt.Fprintf(&b, "D%x,", o.k)
 			} else {
 				fmt.Fprintf(&b, "S%x=%s,", o.k, short(o.v))
@@ -327,7 +382,16 @@ func (mo *model) key() string {
 	}
 	b.WriteString("|")
 	b.WriteString(mo.atReopen)
-	return b.String()
+	return digest(b.String())
+}
+
+// digest keeps state keys short when the store holds hundreds of filler keys
+func digest(s string) string {
+	if len(s) <= 200 {
+		return s
+	}
+	h := sha256.Sum256([]byte(s))
+	return fmt.Sprintf("#%x", h[:16])
 }
 
 // ---- real instance ----
@@ -417,10 +481,10 @@ func (in *inst) step(o op) (string, string) {
 		if o.kind == opBSet {
 			v := cpb(c.vals[o.v])
 			in.batch.Set(k, v)
-			in.mo.bops = append(in.mo.bops, bop{false, string(k), string(v)})
+			in.mo.bops = append(in.mo.bops, bop{del: false, k: string(k), v: string(v)})
 		} else {
 			in.batch.Delete(k)
-			in.mo.bops = append(in.mo.bops, bop{true, string(k), ""})
+			in.mo.bops = append(in.mo.bops, bop{del: true, k: string(k)})
 		}
 	case opBWrite:
 		switch o.variant {
@@ -434,14 +498,43 @@ func (in *inst) step(o op) (string, string) {
 			}
 		}
 		for _, b := range in.mo.bops {
-			if b.del {
+			switch {
+			case b.fill > 0:
+				for i := 0; i < b.fill; i++ {
+					in.mo.set(string(fillKey(i)), string(fillVal(true, b.fill)))
+				}
+			case b.del:
 				in.mo.del(b.k)
-			} else {
+			default:
 				in.mo.set(b.k, b.v)
 			}
 		}
 		in.mo.bstate, in.mo.bops = 2, nil
 		in.reconcileEmptyKey("batch.Set(\"\",..) + " + writeNames[o.variant])
+	case opBFill:
+		if in.mo.bstate != 1 {
+			in.batch = db.NewBatch()
+			in.mo.bstate, in.mo.bops, in.mo.reused = 1, nil, false
+		}
+		for i := 0; i < o.k; i++ {
+			in.batch.Set(fillKey(i), fillVal(true, o.k))
+		}
+		in.mo.bops = append(in.mo.bops, bop{fill: o.k})
+	case opDBFill:
+		for i := 0; i < o.k; i++ {
+			k, v := fillKey(i), fillVal(false, o.k)
+			switch i % 3 {
+			case 0:
+				db.Set(k, v)
+			case 1:
+				db.SetSync(k, v)
+			case 2:
+				if err := db.Put(k, v); err != nil {
+					return be.name + ":Put:error", fmt.Sprintf("Put(%s) returned %v", bname(k), err)
+				}
+			}
+			in.mo.set(string(k), string(v))
+		}
 	case opBReset:
 		in.batch.Reset()
 		in.mo.bstate, in.mo.bops, in.mo.reused = 1, nil, true
@@ -454,7 +547,7 @@ func (in *inst) step(o op) (string, string) {
 		in.h.db.Close()
 		in.h.closed()
 		in.h.db = in.h.again()
-		in.mo.atReopen = in.mo.m.String()
+		in.mo.atReopen = digest(in.mo.m.String())
 	}
 	in.cur = ""
 	return "", ""
@@ -482,7 +575,7 @@ func (in *inst) reconcileEmptyKey(how string) {
 
 // ---- oracle ----
 
-const maxStream = 64
+const maxStream = 1024 // > the largest store any history builds (Σ + 257 fillers)
 
 func drain(it dbm.Iterator) (out []kv, runaway bool) {
 	defer it.Close()
@@ -502,10 +595,55 @@ func fmtStream(s []kv) string {
 		if i > 0 {
 			b.WriteString(" ")
 		}
+		if i >= 12 {
+			fmt.Fprintf(&b, "... %d entries", len(s))
+			break
+		}
 		fmt.Fprintf(&b, "%q=%s", e.k, short(e.v))
 	}
 	b.WriteString("]")
 	return b.String()
+}
+
+// fmtDiff prints two streams from shortly before their first difference (streams may hold hundreds of fillers)
+func fmtDiff(got, want []kv) (string, string) {
+	i := 0
+	for i < len(got) && i < len(want) && got[i] == want[i] {
+		i++
+	}
+	from := i - 2
+	if from <= 0 {
+		return fmtStream(got), fmtStream(want)
+	}
+	pre := fmt.Sprintf("(%d equal entries) ", from)
+	return pre + fmtStream(got[from:]), pre + fmtStream(want[from:])
+}
+
+// brief: the content for messages
+func (m content) brief() string {
+	if len(m) <= 12 {
+		return m.String()
+	}
+	var b strings.Builder
+	n := 0
+	for _, k := range m.keys() {
+		if isFiller(k) {
+			n++
+			continue
+		}
+		fmt.Fprintf(&b, "%x=%s;", k, short(m[k]))
+	}
+	fmt.Fprintf(&b, "+%d fillers", n)
+	return b.String()
+}
+
+func isFiller(k string) bool {
+	for _, g := range fillGaps {
+		if strings.HasPrefix(k, g) && len(k) == len(g)+3 {
+			return true
+		}
+	}
+	return false
 }
 
 // classify the difference between two streams ("" = equal)
@@ -646,16 +784,17 @@ func (in *inst) observe() []finding {
 		}
 		in.cur = obs
 		if p, pv := vk.Catch(func() { got, runaway = drain(mk()) }); p {
-			add(finding{obs: obs, class: "panic", s: s, e: e, what: fmt.Sprintf("%s panics: %v (content %s)", desc(), pv, m)})
+			add(finding{obs: obs, class: "panic", s: s, e: e, what: fmt.Sprintf("%s panics: %v (content %s)", desc(), pv, m.brief())})
 			return
 		}
 		if runaway {
-			add(finding{obs: obs, class: "does-not-terminate", s: s, e: e, what: fmt.Sprintf("%s yields more than %d entries (content %s)", desc(), maxStream, m)})
+			add(finding{obs: obs, class: "does-not-terminate", s: s, e: e, what: fmt.Sprintf("%s yields more than %d entries (content %s)", desc(), maxStream, m.brief())})
 			return
 		}
 		if d := diffStream(got, want, m); d != "" {
+			gs, ws := fmtDiff(got, want)
 			add(finding{obs: obs, class: d, s: s, e: e, got: got, want: want,
-				what: fmt.Sprintf("%s yields %s, model %s (content %s)", desc(), fmtStream(got), fmtStream(want), m)})
+				what: fmt.Sprintf("%s yields %s, model %s (content %s)", desc(), gs, ws, m.brief())})
 		}
 	}
 	for _, s := range sigma {
@@ -854,7 +993,7 @@ func main() {
 		merges += res.MergeChecks
 		per = append(per, map[string]interface{}{"search": c.name, "states": res.States, "transitions": res.Transitions,
 			"depth": c.depth, "depth_completed": res.DepthCompleted, "per_depth": res.PerDepth, "alphabet": len(c.ops),
-			"write_keys": len(c.keys), "values": len(c.vals), "merge_checks": res.MergeChecks, "wall_s": float64(int(el*10)) / 10})
+			"write_keys": len(c.keys), "values": len(c.vals), "batch_fill_sizes": c.fills, "store_fill_sizes": c.dbFills, "merge_checks": res.MergeChecks, "wall_s": float64(int(el*10)) / 10})
 		fmt.Printf("  %-28s ops=%-3d depth=%d/%d states=%-7d transitions=%-8d merge-checks=%-3d %.1fs\n", c.name, len(c.ops), res.DepthCompleted, c.depth, res.States, res.Transitions, res.MergeChecks, el)
 	}
 	obsPerState := len(sigma)*4 + len(sigma)*len(sigma)*2 + len(sigma)*2
